@@ -120,6 +120,7 @@ pub struct NodeCfg {
 }
 
 pub struct Live {
+    #[allow(dead_code)]
     pub pool: Arc<SqliteConnectionPool>,
     pub repo: Arc<SignerCardanoChainDataRepository>,
     pub importer: Arc<dyn ChainDataImporter>,
@@ -272,7 +273,6 @@ impl Snapshot {
 }
 
 pub struct Node {
-    pub idx: usize,
     pub db: PathBuf,
     pub cfg: NodeCfg,
     pub live: Option<Live>,
